@@ -135,6 +135,9 @@ func execute(p *PropDef, tape *simrt.Tape, tier, variant string) *Outcome {
 	if cfg.Trace == 0 {
 		cfg.Trace = 64
 	}
+	if os.Getenv("VERIF_DUMP_TRACE") != "" {
+		cfg.Trace = 20_000_000
+	}
 	res := simrt.Run(theT, tape, cfg, func(w *simrt.World) {
 		c.W = w
 		start := time.Now()
@@ -506,6 +509,9 @@ func workerMain(t *testing.T) {
 		tape := simrt.NewTape(runSeed)
 		out := execute(p, tape, tier, variant)
 		close(stop)
+		if dp := os.Getenv("VERIF_DUMP_TRACE"); dp != "" {
+			os.WriteFile(fmt.Sprintf("%s.%d", dp, idx), []byte(strings.Join(out.Res.Trace, "\n")), 0644)
+		}
 		res.Runs++
 		res.Variants[variant]++
 		d := fmt.Sprintf("%016x", out.Res.Digest)
